@@ -28,9 +28,13 @@ type cliFamily struct {
 
 var cliFamilies = map[string]cliFamily{
 	"cli:c04": {name: "c04", wOp: 6, wReply: 14, wJunk: 4, wSrvReq: 3, wCancel: 1, wDeadline: 1, wClose: 0, wFeedErr: 0,
-		wFeedBad: 0, wSendFault: 0, wCbGate: 3, steps: 14, scriptOf4: 3, faultOf16: 0},
+		wFeedBad: 0, wSendFault: 1, wCbGate: 3, steps: 14, scriptOf4: 3, faultOf16: 1},
 	"cli:c05": {name: "c05", wOp: 8, wReply: 8, wJunk: 2, wSrvReq: 2, wCancel: 6, wDeadline: 4, wClose: 3, wFeedErr: 3,
 		wFeedBad: 1, wSendFault: 2, wCbGate: 2, wLateOp: 3, steps: 16, scriptOf4: 0, faultOf16: 2},
+	// channel discipline on the client's side (C10): every kind of action, so that Send, Recv and Close of the
+	// client's channel are exercised against each other (the instrumented channel's monitors judge)
+	"cli:c10": {name: "c10", wOp: 8, wReply: 8, wJunk: 2, wSrvReq: 4, wCancel: 4, wDeadline: 3, wClose: 3, wFeedErr: 2,
+		wFeedBad: 1, wSendFault: 2, wCbGate: 3, wLateOp: 3, steps: 16, scriptOf4: 0, faultOf16: 2},
 }
 
 type cliScen struct {
